@@ -313,7 +313,14 @@ static void c03_parallel(uint64_t idx, vh_rng *r)
         vh_call_end();
         if (inplace) { memcpy(z, y, bytes); }
         vh_call_begin("parallel second direction");
-        if (c->id == CIPH_MANTIS) { c->par_swap(&h); r3 = c->par_encrypt(z, inplace ? z : y, tw, bytes, &h); }
+        if (c->id == CIPH_MANTIS) {
+            /* the inverse is reached by switching modes or (1 case in 3) by keying the same object afresh with the same key for the other mode */
+            int rekeyed = 0;
+            if (nb % 3 == 2) { r1 &= c->par_set_key(&h, key, klen, rounds, order ? MANTIS_ENCRYPT : MANTIS_DECRYPT); VH_COUNT("mantis_parallel_inverse_by_rekeying_same_key_other_mode", 1); rekeyed = 1; }
+            else c->par_swap(&h);
+            r3 = c->par_encrypt(z, inplace ? z : y, tw, bytes, &h);
+            if (rekeyed) c->par_set_key(&h, key, klen, rounds, order ? MANTIS_DECRYPT : MANTIS_ENCRYPT), c->par_swap(&h);      /* leave the object as after one swap */
+        }
         else r3 = (order ? c->par_encrypt : c->par_decrypt)(z, inplace ? z : y, NULL, bytes, &h);
         vh_call_end();
         if (r1 != 1 || r2 != 1 || r3 != 1 || memcmp(z, x, bytes)) {
